@@ -867,7 +867,11 @@ def manifest(name='proid.app#0000000001', uniqueid='000000000000a',
         'endpoints': [
             {'name': n, 'port': p, 'type': t, 'proto': pr}
             for (n, pr, p, t) in endpoints_],
-        'ephemeral_ports': {'tcp': eph[0], 'udp': eph[1]},
+        # key order as written in the manifest (a third element asks for
+        # udp first): utils.to_obj turns the dict into a namedtuple whose
+        # positional order is the key order
+        'ephemeral_ports': ({'udp': eph[1], 'tcp': eph[0]} if len(eph) > 2
+                            else {'tcp': eph[0], 'udp': eph[1]}),
         'passthrough': list(passthrough),
         'vring': ({'cells': ['cell1'], 'rules': []} if vring else {}),
         'shared_network': shared_network,
